@@ -172,9 +172,11 @@ def fs_property(ctx, pid, module, theorems, oracle, classify=None, needs_ref=Fal
                           dict(history=h, exit_code=d["rc"], stderr=d["err"][-500:], last=last.get("op")))
             fails += 1
             continue
+        if h.get("_symlinks") and pid != "C01":
+            continue          # symbolic links are outside M1 and outside every theorem: judged by C01's rebuild/reopen oracle only (known finding)
         fl = oracle(h, res, ref[k]) if needs_ref else oracle(h, res)
         for f in fl:
-            fid = classify(h, res, f) if classify else None
+            fid = "C01-symlinks" if h.get("_symlinks") else (classify(h, res, f) if classify else None)
             if fid and any(x["id"] == fid for x in ctx.findings):
                 ctx.known(fid, next(x["what"] for x in ctx.findings if x["id"] == fid))
                 continue
